@@ -73,6 +73,10 @@ type FV struct {
 	script    []string
 	arrays    map[string]string // heap array name -> sort
 	refArrays map[string]bool   // arrays whose Int elements are references
+	freshSet  map[string]bool   // reference terms allocated by this function
+	curSt     *State            // state of the instruction being executed (allocation counter lives in its heap)
+	regions   bool              // split every heap array into pre-existing / newly allocated objects
+	sliceArr  map[string]Term   // defined slice name -> its backing array ref term (when statically known)
 	stableArrays map[string]bool // field arrays that survive havoc (stable declarations)
 	protectedCells []protectedCell
 	obls      []*Obligation
@@ -556,6 +560,66 @@ func (v *FV) regArray(name, sort string) {
 		panic(fmt.Sprintf("heap array %s registered with sorts %s and %s", name, old, sort))
 	}
 	v.arrays[name] = sort
+	if !strings.HasSuffix(name, "$n") && name != "TOP" {
+		// second physical array for objects allocated during the function (refs > N0):
+		// writes to new objects leave the array of the pre-existing objects untouched
+		v.arrays[name+"$n"] = sort
+	}
+}
+
+// side classifies a reference term statically: 1 = pre-existing object, 2 = allocated
+// by this function, 0 = unknown (decided by the solver: root(ref) > N0).
+func (v *FV) side(ref Term) int {
+	if !v.regions {
+		return 1 // single physical array per field (contract clause "regions" turns the split on)
+	}
+	if v.freshSet[ref] {
+		return 2
+	}
+	if strings.HasPrefix(ref, "in_") || strings.HasPrefix(ref, "glob_") || strings.HasPrefix(ref, "fn_") || ref == "0" {
+		return 1
+	}
+	if strings.HasPrefix(ref, "(sub_") {
+		// (sub_T_f X): same side as X
+		if i := strings.Index(ref, " "); i > 0 && strings.HasSuffix(ref, ")") {
+			return v.side(ref[i+1 : len(ref)-1])
+		}
+	}
+	return 0
+}
+
+func (v *FV) isNew(ref Term) Term {
+	v.pre("ref_root", "(declare-fun ref_root (Int) Int)")
+	v.pre("ref_root_ax", "(assert (forall ((r Int)) (! (=> (>= r 0) (= (ref_root r) r)) :pattern ((ref_root r)))))")
+	return fmt.Sprintf("(> (ref_root %s) N0!)", ref)
+}
+
+// rd reads heap array arr at object ref.
+func (v *FV) rd(s *Snapshot, arr string, ref Term) Term {
+	switch v.side(ref) {
+	case 1:
+		return fmt.Sprintf("(select %s %s)", v.heapGet(s, arr), ref)
+	case 2:
+		return fmt.Sprintf("(select %s %s)", v.heapGet(s, arr+"$n"), ref)
+	}
+	return fmt.Sprintf("(ite %s (select %s %s) (select %s %s))", v.isNew(ref), v.heapGet(s, arr+"$n"), ref, v.heapGet(s, arr), ref)
+}
+
+// wr writes heap array arr at object ref.
+func (v *FV) wr(s *Snapshot, arr string, ref Term, val Term) {
+	switch v.side(ref) {
+	case 1:
+		v.heapSet(s, arr, fmt.Sprintf("(store %s %s %s)", v.heapGet(s, arr), ref, val))
+		return
+	case 2:
+		v.heapSet(s, arr+"$n", fmt.Sprintf("(store %s %s %s)", v.heapGet(s, arr+"$n"), ref, val))
+		return
+	}
+	c := v.define("isnew", "Bool", v.isNew(ref))
+	vv := v.define("wrval", strings.TrimSuffix(strings.TrimPrefix(v.arrSort(arr), "(Array Int "), ")"), val)
+	ho, hn := v.heapGet(s, arr), v.heapGet(s, arr+"$n")
+	v.heapSet(s, arr, fmt.Sprintf("(ite %s %s (store %s %s %s))", c, ho, ho, ref, vv))
+	v.heapSet(s, arr+"$n", fmt.Sprintf("(ite %s (store %s %s %s) %s)", c, hn, ref, vv, hn))
 }
 
 func (v *FV) heapGet(s *Snapshot, name string) Term {
@@ -638,13 +702,18 @@ func (v *FV) preserveAcrossHavoc(prev, s *Snapshot) {
 
 // loopBody != nil: havoc at a loop head; cells assigned inside the loop are not preserved.
 func (v *FV) preserveAcrossHavocIn(prev, s *Snapshot, loopBody map[*ssa.BasicBlock]bool) {
-	for _, g := range []string{"CALLS", "ARGNN"} {
+	if _, ok := v.arrays["TOP"]; ok {
+		// objects are never un-allocated
+		v.emit(fmt.Sprintf("(assert (>= %s %s))", v.topOf(s), v.topOf(prev)))
+	}
+	for _, g := range []string{"CALLS", "ARGNN", "CALLS$n", "ARGNN$n"} {
 		if _, ok := v.arrays[g]; ok {
 			s.over[g] = v.heapGet(prev, g)
 		}
 	}
 	for a := range v.stableArrays {
 		s.over[a] = v.heapGet(prev, a)
+		s.over[a+"$n"] = v.heapGet(prev, a+"$n")
 	}
 	for _, pc := range v.protectedCells {
 		if _, isStable := v.stableArrays[pc.arr]; isStable {
@@ -653,8 +722,8 @@ func (v *FV) preserveAcrossHavocIn(prev, s *Snapshot, loopBody map[*ssa.BasicBlo
 		if loopBody != nil && !pc.final && storedInBlocks(pc.alloc, loopBody) {
 			continue
 		}
-		val := v.define("keepcell", strings.TrimSuffix(strings.TrimPrefix(v.arrSort(pc.arr), "(Array Int "), ")"), fmt.Sprintf("(select %s %s)", v.heapGet(prev, pc.arr), pc.ref))
-		v.heapSet(s, pc.arr, fmt.Sprintf("(store %s %s %s)", v.heapGet(s, pc.arr), pc.ref, val))
+		val := v.define("keepcell", strings.TrimSuffix(strings.TrimPrefix(v.arrSort(pc.arr), "(Array Int "), ")"), v.rd(prev, pc.arr, pc.ref))
+		v.wr(s, pc.arr, pc.ref, val)
 	}
 }
 
@@ -712,6 +781,9 @@ func (v *FV) subRef(structT types.Type, i int, base Term) Term {
 	if !v.preSeen["fnax "+fn] {
 		v.subCtr++
 		v.pre("sub_tag", "(declare-fun sub_tag (Int) Int)")
+		v.pre("ref_root", "(declare-fun ref_root (Int) Int)")
+		v.pre("ref_root_ax", "(assert (forall ((r Int)) (! (=> (>= r 0) (= (ref_root r) r)) :pattern ((ref_root r)))))")
+		v.pre("rootax "+fn, fmt.Sprintf("(assert (forall ((p Int)) (! (= (ref_root (%s p)) (ref_root p)) :pattern ((%s p)))))", fn, fn))
 		v.pre("fnax "+fn, fmt.Sprintf("(assert (forall ((p Int)) (! (and (= (inv_%s (%s p)) p) (< (%s p) 0) (= (sub_tag (%s p)) %d)) :pattern ((%s p)))))", fn, fn, fn, fn, v.subCtr, fn))
 	}
 	return fmt.Sprintf("(%s %s)", fn, base)
@@ -738,7 +810,7 @@ func (v *FV) loadField(s *Snapshot, t types.Type, i int, ref Term) Term {
 		return v.loadStruct(s, ft, v.subRef(t, i, ref))
 	}
 	arr, _ := v.fieldArray(t, i)
-	return fmt.Sprintf("(select %s %s)", v.heapGet(s, arr), ref)
+	return v.rd(s, arr, ref)
 }
 
 func (v *FV) storeStruct(s *Snapshot, t types.Type, ref Term, val Term) {
@@ -756,7 +828,7 @@ func (v *FV) storeField(s *Snapshot, t types.Type, i int, ref Term, val Term) {
 		return
 	}
 	arr, _ := v.fieldArray(t, i)
-	v.heapSet(s, arr, fmt.Sprintf("(store %s %s %s)", v.heapGet(s, arr), ref, val))
+	v.wr(s, arr, ref, val)
 }
 
 // newRef returns a fresh non-nil reference distinct from everything that existed
@@ -768,12 +840,27 @@ func (v *FV) newRef(prefix string) Term {
 		v.emit(fmt.Sprintf("(assert (distinct %s %s))", r, o))
 	}
 	v.fresh = append(v.fresh, r)
+	v.freshSet[r] = true
+	if v.curSt != nil {
+		// allocation counter: every object that exists is below TOP; a new one is at or above it
+		top := v.topOf(v.curSt.snap)
+		v.emit(fmt.Sprintf("(assert (=> %s (>= %s %s)))", v.curSt.reach, r, top))
+		v.heapSet(v.curSt.snap, "TOP", fmt.Sprintf("(store %s 0 (ite (>= %s %s) (+ %s 1) %s))", v.heapGet(v.curSt.snap, "TOP"), r, top, r, top))
+	}
 	return r
 }
 
-// refOK: a reference obtained from the heap, a parameter or a call either existed
-// before (<= N0) or is one of the references allocated so far.
+func (v *FV) topOf(s *Snapshot) Term {
+	v.regArray("TOP", "(Array Int Int)")
+	return fmt.Sprintf("(select %s 0)", v.heapGet(s, "TOP"))
+}
+
+// refOK: a reference obtained from the heap, a parameter or a call refers to an object
+// that exists now: it existed before the call (<= N0) or was allocated since (below TOP).
 func (v *FV) refOK(t Term) Term {
+	if v.curSt != nil {
+		return fmt.Sprintf("(and (>= %s 0) (< %s %s))", t, t, v.topOf(v.curSt.snap))
+	}
 	parts := []string{fmt.Sprintf("(and (>= %s 0) (<= %s %s))", t, t, v.n0)}
 	for _, o := range v.fresh {
 		parts = append(parts, fmt.Sprintf("(= %s %s)", t, o))
@@ -856,6 +943,31 @@ func storedInBlocks(a ssa.Value, blocks map[*ssa.BasicBlock]bool) bool {
 // sliceElem: the term for element i of slice s in heap array version h (element array of
 // sort es). In math mode reads go through a view function with a trigger-friendly axiom
 // (E-matching on "offset + i" is unreliable for linear arithmetic).
+func (v *FV) sliceElemAt(sn *Snapshot, arr string, es string, s Term, i Term) Term {
+	ref := fmt.Sprintf("(sl_arr %s)", s)
+	switch v.side(v.arrOf(s)) {
+	case 1:
+		return v.sliceElem(v.heapGet(sn, arr), es, s, i)
+	case 2:
+		return v.sliceElem(v.heapGet(sn, arr+"$n"), es, s, i)
+	}
+	return fmt.Sprintf("(ite %s %s %s)", v.isNew(ref), v.sliceElem(v.heapGet(sn, arr+"$n"), es, s, i), v.sliceElem(v.heapGet(sn, arr), es, s, i))
+}
+
+// arrOf: the backing-array reference of a slice term when it is syntactically visible
+func (v *FV) arrOf(s Term) Term {
+	if strings.HasPrefix(s, "(mk_slice ") {
+		f := strings.Fields(s)
+		if len(f) > 1 {
+			return f[1]
+		}
+	}
+	if a, ok := v.sliceArr[s]; ok {
+		return a
+	}
+	return fmt.Sprintf("(sl_arr %s)", s)
+}
+
 func (v *FV) sliceElem(h Term, es string, s Term, i Term) Term {
 	if v.mode != ModeMath {
 		return fmt.Sprintf("(select (select %s (sl_arr %s)) %s)", h, s, v.iadd(fmt.Sprintf("(sl_off %s)", s), i))
